@@ -3,6 +3,10 @@
 use crate::engine::Property;
 
 pub mod c03;
+pub mod c08;
+pub mod c09;
+pub mod c10;
+pub mod c11;
 pub mod c12;
 pub mod c13;
 pub mod c14;
@@ -23,7 +27,7 @@ pub mod queue;
 pub mod sched;
 
 pub fn all() -> Vec<&'static dyn Property> {
-    vec![&c03::C03, &c12::C12, &c13::C13, &c14::C14, &c15::C15, &c16::C16, &c17::C17, &c18::C18, &c19::C19, &c22::C22, &c23::C23, &c24::C24, &c25::C25, &c26::C26, &c27::C27, &c28::C28, &c29::C29]
+    vec![&c03::C03, &c08::C08, &c09::C09, &c10::C10, &c11::C11, &c12::C12, &c13::C13, &c14::C14, &c15::C15, &c16::C16, &c17::C17, &c18::C18, &c19::C19, &c22::C22, &c23::C23, &c24::C24, &c25::C25, &c26::C26, &c27::C27, &c28::C28, &c29::C29]
 }
 
 pub fn find(id: &str) -> Option<&'static dyn Property> {
